@@ -249,13 +249,8 @@ Definition lstep (a : lbl) (s : state) : option state :=
   | WRdTl, AWRdTl => Some (set_lp s (WWaitT (gtl (gs s (cur s)))))
   | WWaitT x, AWait w =>
       (* Event.wait(x): returns True iff the flag is set; False = the timeout expired
-         (x = 0 expires at once; an untimed-in-practice wait expiring is the Timeout transition) *)
-      if Bool.eqb w (flag s) then
-        match x, w with
-        | Neg, _ => None                      (* wait(negative) is not reachable *)
-        | _, _ => Some (set_lp s (WAfter RAcq))
-        end
-      else None
+         (x = 0, and the unreachable x < 0, expire at once; a positive one expiring is the Timeout transition) *)
+      if Bool.eqb w (flag s) then Some (set_lp s (WAfter RAcq)) else None
   | WAfter r, _ =>
       match red_step 0 (cur s) Zero r a s with
       | Some (s', Some r') => Some (set_lp s' (WAfter r'))
